@@ -2978,3 +2978,8 @@ fn non_scalar_key() -> Result<ser::Impossible<(), Error>> {
 fn non_scalar_key_e() -> Result<()> {
     Err(Error::unexpected("non-scalar key"))
 }
+
+// verification hook: bounded-model-checking harnesses (compiled only by Kani, `--cfg kani`)
+#[cfg(kani)]
+#[path = "/verif/harness/h_ser.rs"]
+mod verif;
